@@ -201,6 +201,10 @@ fn cact(a: &CustomAction) -> Result<String, String> {
         // on-press-delay / on-release-delay put the thread to sleep for real time; in the virtual
         // time of the harness and of the model they change nothing
         CustomAction::Delay(_) | CustomAction::DelayOnRelease(_) => "oth".into(),
+        // [seq] sequence mode is inside the kanata-level model (Model/KanataSeq.lean)
+        CustomAction::SequenceLeader(timeout, mode) => format!("sl {} {}", timeout, crate::kanseq::mode_num(mode)),
+        CustomAction::SequenceCancel => "sc".into(),
+        CustomAction::SequenceNoerase(n) => format!("sn {n}"),
         other => return Err(format!("{other:?}").split(|c: char| !c.is_alphanumeric()).next().unwrap_or("?").to_string()),
     })
 }
@@ -209,9 +213,6 @@ fn cact(a: &CustomAction) -> Result<String, String> {
 pub fn serialise_kanata(c: &cfg::Cfg, hist: &[KEv]) -> Result<String, String> {
     if c.zippy.is_some() {
         return Err("zippychord".into());
-    }
-    if c.options.sequence_always_on {
-        return Err("sequence-always-on".into());
     }
     let lh = lay_hist(hist);
     let (lay, ser) = serialise_cfg(c, &lh);
@@ -287,6 +288,7 @@ pub fn serialise_kanata(c: &cfg::Cfg, hist: &[KEv]) -> Result<String, String> {
         u16::from(OsCode::MouseWheelUp), u16::from(OsCode::MouseWheelDown),
         u16::from(OsCode::MouseWheelLeft), u16::from(OsCode::MouseWheelRight)
     ));
+    out.push(crate::kanseq::seq_tokens(c)); // [seq]
     if let Some(sec) = chv2_section {
         out.push(sec); // chv2
     }
